@@ -19,29 +19,34 @@ class NotApplicable(Exception):
 
 
 class Mutant(object):
-    def __init__(self, name, rule, kind, path, edit, expect='', note=''):
+    def __init__(self, name, rule, kind, path, edit, expect='', note='',
+                 also=()):
         self.name = name
         self.rule = rule
         self.kind = kind
         self.path = path
         self.edit = edit          # f(source) -> new source
-        self.expect = expect      # substring of the expected finding ident
+        self.expect = expect or ''  # substring of the expected finding ident
         self.note = note
+        self.also = list(also)    # [(path, edit)]: cooperating sites
 
     def overlay(self, repo=None):
-        full = os.path.join(repo or REPO, self.path)
-        if not os.path.exists(full):
-            raise NotApplicable('no such file ' + self.path)
-        with open(full, 'rb') as f:
-            src = f.read().decode('utf-8', 'replace')
-        new = self.edit(src)
-        if new is None or new == src:
-            raise NotApplicable('edit did not apply')
-        try:
-            ast.parse(new)
-        except SyntaxError as e:
-            raise NotApplicable('mutant does not parse: %s' % e)
-        return {self.path: new}
+        out = {}
+        for path, edit in [(self.path, self.edit)] + self.also:
+            full = os.path.join(repo or REPO, path)
+            if not os.path.exists(full):
+                raise NotApplicable('no such file ' + path)
+            with open(full, 'rb') as f:
+                src = f.read().decode('utf-8', 'replace')
+            new = edit(src)
+            if new is None or new == src:
+                raise NotApplicable('edit did not apply')
+            try:
+                ast.parse(new)
+            except SyntaxError as e:
+                raise NotApplicable('mutant does not parse: %s' % e)
+            out[path] = new
+        return out
 
 
 def _find_def(tree, qualname):
